@@ -8,7 +8,7 @@ CONSTANTS
   PruneBatch = 1
   L2PerPrune = 1
   MinAge = FALSE
-  MaxSteps = 6
+  MaxSteps = 8
   EnableRevert = TRUE
   EnableInterrupts = TRUE
   FixPruneAtomicFloor = TRUE
